@@ -185,6 +185,194 @@ let e2e_check line =
     else "true"
   | _ -> verdict false ("outcome:" ^ i)
 
+(* ==================================================================== C15 *)
+let kinds = [("cb", Bytes); ("cc", Chars); ("cy", Cycles); ("ci", Items)]
+let dotlist s = List.map n_of_string (List.filter (fun x -> x <> "") (String.split_on_char '.' s))
+let show_list l = String.concat "" (List.map (fun x -> string_of_n x ^ ".") l)
+
+(* "sc=3,ss=2,th=2.1.,mn=..,mx=..,se=1,ig=0,cb=..,cc=..,cy=..,ci=.." ("-" = no options at all) *)
+let parse_fields spec : options =
+  List.fold_left (fun o kv ->
+      if kv = "" then o else
+      match String.index_opt kv '=' with
+      | None -> failwith ("bad field " ^ kv)
+      | Some i ->
+        let k = String.sub kv 0 i and v = String.sub kv (i + 1) (String.length kv - i - 1) in
+        if v = "-" then o else
+        let num () = Some (VNum (n_of_string v)) and boolean () = Some (VBool (v = "1")) in
+        (match k with
+         | "sc" -> set_field FSampleCount (num ()) o
+         | "ss" -> set_field FSampleSize (num ()) o
+         | "th" -> set_field FThreads (Some (VList (dotlist v))) o
+         | "mn" -> set_field FMinTime (num ()) o
+         | "mx" -> set_field FMaxTime (num ()) o
+         | "se" -> set_field FSkipExtTime (boolean ()) o
+         | "ig" -> set_field FIgnore (boolean ()) o
+         | _ -> (match List.assoc_opt k kinds with
+             | Some kind -> set_field (FCounter kind) (num ()) o
+             | None -> failwith ("bad field " ^ k))))
+    o_default (String.split_on_char ',' spec)
+
+let parse_level spec : options option = if spec = "-" then None else Some (parse_fields spec)
+
+let show_options (o : options) : string =
+  let on f = function Some x -> f x | None -> "-" in
+  let b x = if x then "1" else "0" in
+  String.concat " " ([
+    "sc=" ^ on string_of_n o.o_sample_count; "ss=" ^ on string_of_n o.o_sample_size;
+    "th=" ^ on show_list o.o_threads; "mn=" ^ on string_of_n o.o_min_time; "mx=" ^ on string_of_n o.o_max_time;
+    "se=" ^ on b o.o_skip_ext_time; "ig=" ^ on b o.o_ignore ]
+    @ List.map (fun (name, k) -> name ^ "=" ^ on string_of_n (cs_get o.o_counters k)) kinds)
+
+(* a shown option set ("sc=4 ss=- ...") back into a record *)
+let parse_shown toks : options = parse_fields (String.concat "," toks)
+
+let split_kv tok = match String.index_opt tok ':' with
+  | Some i -> (String.sub tok 0 i, String.sub tok (i + 1) (String.length tok - i - 1))
+  | None -> failwith ("bad level " ^ tok)
+
+let parse_stack secs =
+  let groups = ref [] and bench = ref None and runner = ref o_default in
+  List.iter (fun tok ->
+      let (k, spec) = split_kv tok in
+      match k with
+      | "G" -> groups := parse_level spec :: !groups
+      | "B" -> bench := parse_level spec
+      | "R" -> runner := (match parse_level spec with Some o -> o | None -> o_default)
+      | _ -> failwith "bad level kind") (nonempty (section secs "L"));
+  (!runner, List.rev !groups, !bench)
+
+let parse_counter_call secs =
+  match nonempty (section secs "C") with
+  | [tok] -> (match String.index_opt tok '=' with
+      | Some i -> Some (List.assoc (String.sub tok 0 i) kinds, n_of_string (String.sub tok (i + 1) (String.length tok - i - 1)))
+      | None -> failwith "bad counter call")
+  | _ -> None
+
+let show_collection coll = String.concat " " (List.map (fun (name, k) -> name ^ "=" ^ show_list (coll k)) kinds)
+
+let ovw line =
+  let secs = sections line in
+  let (runner, groups, bench) = parse_stack secs in
+  let r = resolve runner groups bench in
+  match parse_counter_call secs with
+  | None -> show_options r
+  | Some (k, c) -> show_options r ^ " #K " ^ show_collection (set_counter (to_collection r.o_counters) k c)
+
+let ovw_check line =
+  let (c, i) = split_sb line in
+  let secs = sections c in
+  let (runner, groups, bench) = parse_stack secs in
+  let isecs = sections i in
+  match nonempty (section isecs "") with
+  | toks when List.length toks = 11 && List.for_all (fun t -> String.contains t '=') toks ->
+    let out = parse_shown toks in
+    if not (resolve_sb runner groups bench out) then verdict false "some-field-is-not-the-first-set-value-in-runner,bench,innermost..outermost-group"
+    else (match parse_counter_call secs with
+        | None -> "true"
+        | Some (k, cnt) ->
+          (* the Bencher starts from the resolved counters; Bencher::counter replaces its own kind only *)
+          let want = List.map (fun (name, k') -> name ^ "=" ^ show_list (if k' = k then [cnt] else to_collection out.o_counters k')) kinds in
+          let got = nonempty (section isecs "K") in
+          verdict (want = got) ("bencher-counters-want:" ^ String.concat "," want))
+  | _ -> verdict false ("outcome:" ^ i)
+
+(* ---- into: IntoThreads ---- *)
+let into_parse line = match toks line with
+  | "v" :: l -> (`V, List.map n_of_string (nonempty l))
+  | ["u"; x] -> (`U, [n_of_string x])
+  | ["b"; x] -> (`B, [n_of_string x])
+  | _ -> failwith "into"
+
+let into line =
+  match into_parse line with
+  | (`V, l) -> show_list (set_threads l) ^ "|"
+  | (`U, [x]) -> show_list (into_threads_usize x) ^ "|"
+  | (`B, [x]) -> show_list (into_threads_bool (x <> N0)) ^ "|"
+  | _ -> failwith "into"
+
+let into_check line =
+  let (c, i) = split_sb line in
+  if String.length i = 0 || i.[String.length i - 1] <> '|' then verdict false ("outcome:" ^ i) else
+  let out = dotlist (String.sub i 0 (String.length i - 1)) in
+  match into_parse c with
+  | (`V, l) -> verdict (strictly_increasing out && List.for_all (fun x -> mem_N x out) l && List.for_all (fun x -> mem_N x l) out)
+                 "not-the-sorted-duplicate-free-list-of-the-inputs"
+  | (`U, [x]) -> verdict (out = [x]) "scalar-not-kept"
+  | (`B, [x]) -> verdict (out = [if x <> N0 then N0 else n_of_small 1]) "bool:true=0(parallelism),false=1"
+  | _ -> failwith "into.sb"
+
+(* ---- opt: the real binary in bench mode.
+   "p #R F:spec E:spec P:spec Q:spec #I none|ignored|include #P parallelism #B path|lvl|..|benchlvl .." ---- *)
+let parse_mode = function "none" -> RunNo | "ignored" -> RunOnly | "include" -> RunYes | m -> failwith ("bad mode " ^ m)
+
+let kind_letter = function Bytes -> "B" | Chars -> "C" | Cycles -> "Y" | Items -> "I"
+
+let show_observed path (ob : observed) =
+  if ob.ob_ignored then path ^ "=I" else
+  let on = function Some x -> string_of_n x | None -> "?" in
+  let rows = List.map (fun ((t, samples), iters) ->
+      (if ob.ob_branches then string_of_n t else "-") ^ ":" ^ string_of_n samples ^ ":" ^ on iters) ob.ob_rows in
+  let units = if ob.ob_no_samples then "?u" else if ob.ob_kinds = [] then "-" else String.concat "" (List.map kind_letter ob.ob_kinds) in
+  path ^ "=R/" ^ String.concat ";" rows ^ "/" ^ units ^ "/" ^ on ob.ob_calls
+
+(* "P" as an element of a thread list stands for the probed parallelism *)
+let subst_p par tok =
+  let n = String.length tok in
+  let b = Buffer.create (n + 8) in
+  String.iteri (fun i ch ->
+      if ch = 'P' && i > 0 && (tok.[i - 1] = '=' || tok.[i - 1] = '.') && i + 1 < n && tok.[i + 1] = '.'
+      then Buffer.add_string b par else Buffer.add_char b ch) tok;
+  Buffer.contents b
+
+let opt_gen use_spec line =
+  let secs = sections line in
+  let par_s = (match nonempty (section secs "P") with [p] -> p | _ -> failwith "no parallelism") in
+  let src = List.map (fun t -> split_kv (subst_p par_s t)) (nonempty (section secs "R")) in
+  let get k = match List.assoc_opt k src with Some s -> parse_fields s | None -> o_default in
+  let runner = (if use_spec then spec_runner else runner_level) (get "P") (get "F") (get "E") (get "Q") in
+  let mode = parse_mode (match nonempty (section secs "I") with [m] -> m | _ -> "none") in
+  let par = n_of_string (match nonempty (section secs "P") with [p] -> p | _ -> failwith "no parallelism") in
+  let entries = List.map (fun tok ->
+      match String.split_on_char '|' tok with
+      | path :: lvls when lvls <> [] ->
+        let rl = List.rev lvls in
+        (* attribute-level thread lists went through IntoThreads *)
+        let norm = function Some o -> Some (norm_threads o) | None -> None in
+        let bench = norm (parse_level (List.hd rl)) and groups = List.map (fun l -> norm (parse_level l)) (List.rev (List.tl rl)) in
+        let eff = (if use_spec then spec_effective else resolve) runner groups bench in
+        show_observed path (observe par mode eff)
+      | _ -> failwith ("bad bench entry " ^ tok)) (nonempty (section secs "B")) in
+  String.concat " " entries
+
+(* wildcard comparison: "?" in the expectation stands for any number, "?u" for any unit letters *)
+let matches_expected want got =
+  let nw = String.length want and ng = String.length got in
+  let rec go i j =
+    if i = nw then j = ng
+    else if want.[i] = '?' && i + 1 < nw && want.[i + 1] = 'u' then begin
+      let rec skip j' = go (i + 2) j' || (j' < ng && (got.[j'] = '-' || (got.[j'] >= 'A' && got.[j'] <= 'Z')) && skip (j' + 1)) in skip j end
+    else if want.[i] = '?' then begin
+      let rec digits j' = if j' < ng && got.[j'] >= '0' && got.[j'] <= '9' then digits (j' + 1) else j' in
+      let e = digits j in e > j && go (i + 1) e end
+    else j < ng && want.[i] = got.[j] && go (i + 1) (j + 1) in
+  go 0 0
+
+let opt_check line =
+  let (c, i) = split_sb line in
+  let isecs = sections i in
+  match nonempty (section isecs "") with
+  | "O" :: got ->
+    let head = (match String.index_opt c '#' with Some k -> String.sub c 0 k | None -> c) in
+    ignore head;
+    let minput = c ^ " #P " ^ String.concat " " (section isecs "P") ^ " #B " ^ String.concat " " (section isecs "B") in
+    let want = String.split_on_char ' ' (opt_gen true minput) in
+    if List.length want <> List.length got then verdict false "different-set-of-benchmarks" else
+    (match List.filter (fun (w, g) -> not (matches_expected w g)) (List.combine want got) with
+     | [] -> "true"
+     | (w, g) :: _ -> verdict false ("expected:" ^ w ^ "-observed:" ^ g))
+  | _ -> verdict false ("outcome:" ^ i)
+
 let dispatch mode line =
   match mode with
   | "ismatch" -> ismatch line
@@ -193,6 +381,12 @@ let dispatch mode line =
   | "retain.sb" -> retain_check line
   | "e2e" -> e2e_m line
   | "e2e.sb" -> e2e_check line
+  | "ovw" -> ovw line
+  | "ovw.sb" -> ovw_check line
+  | "into" -> into line
+  | "into.sb" -> into_check line
+  | "opt" -> "O " ^ opt_gen false line
+  | "opt.sb" -> opt_check line
   | _ -> failwith ("unknown mode " ^ mode)
 
 let () = main dispatch
